@@ -14,7 +14,7 @@ import (
 // C09 — names bound inside for / function / partial / contentOf / block-with-
 // context scopes never leak or clobber. Reference: an environment chain.
 
-var c09Kinds = []string{"for", "fn", "partial", "contentOf", "blockWith"}
+var c09Kinds = []string{"for", "fn", "partial", "contentOf", "blockWith", "contentOf-replayed-in-for", "contentOf-replayed-in-fn"}
 var c09Names = []string{"a", "b", "c"}
 
 type c09Gen struct {
@@ -115,10 +115,49 @@ func (g *c09Gen) construct(shape []string, level int) string {
 		g.exp.WriteString("}")
 		return fmt.Sprintf("<%%= for (%s) in [\"%s\"] { %%>{%s}<%% } %%>", n, v, body)
 	case "fn":
+		if g.r.Chance(1, 3) {
+			// a function without parameters still has its own scope
+			delete(g.scopes[len(g.scopes)-1], n)
+			g.labels["fn-without-parameters"] = true
+			g.exp.WriteString("(")
+			body := g.seq(shape[1:], level+1)
+			g.exp.WriteString(")")
+			return fmt.Sprintf("<%% let fn%d = fn() { %%>(%s)<%% } %%><%%= fn%d() %%>", id, body, id)
+		}
 		g.exp.WriteString("(")
 		body := g.seq(shape[1:], level+1)
 		g.exp.WriteString(")")
 		return fmt.Sprintf("<%% let fn%d = fn(%s) { %%>(%s)<%% } %%><%%= fn%d(\"%s\") %%>", id, n, body, id, v)
+	case "contentOf-replayed-in-for", "contentOf-replayed-in-fn":
+		// the block is declared here and replayed inside another construct:
+		// it runs in the scope it was declared in (plus its data), and the
+		// construct around the replay continues in its own scope afterwards
+		saved := g.exp
+		g.exp = strings.Builder{}
+		g.exp.WriteString("«")
+		body := g.seq(shape[1:], level+1)
+		g.exp.WriteString("»")
+		bodyExp := g.exp.String()
+		g.exp = saved
+		dataScope := g.scopes[len(g.scopes)-1]
+		ln, lv := g.binder()
+		g.scopes[len(g.scopes)-1] = map[string]string{ln: lv}
+		open, close := "{", "}"
+		if kind == "contentOf-replayed-in-fn" {
+			open, close = "(", ")"
+		}
+		g.exp.WriteString(open)
+		pre := g.probe("before-replay") + g.lets(level+1)
+		g.exp.WriteString(bodyExp)
+		post := g.probe("after-replay") + g.lets(level+1) + g.probe("end-of-replaying-construct")
+		g.exp.WriteString(close)
+		g.scopes[len(g.scopes)-1] = dataScope
+		call := fmt.Sprintf("<%%= contentOf(\"c%d\", {%s: \"%s\"}) %%>", id, n, v)
+		decl := fmt.Sprintf("<%% contentFor(\"c%d\") { %%>«%s»<%% } %%>", id, body)
+		if kind == "contentOf-replayed-in-for" {
+			return decl + fmt.Sprintf("<%%= for (%s) in [\"%s\"] { %%>{%s%s%s}<%% } %%>", ln, lv, pre, call, post)
+		}
+		return decl + fmt.Sprintf("<%% let fn%d = fn(%s) { %%>(%s%s%s)<%% } %%><%%= fn%d(\"%s\") %%>", id, ln, pre, call, post, id, lv)
 	case "partial":
 		name := fmt.Sprintf("p%d", id)
 		g.exp.WriteString("<")
@@ -255,7 +294,7 @@ func init() {
 	core.Register(&core.Prop{
 		ID:    "C09",
 		Level: "exploration",
-		Rule: "all 155 nestings of depth 1-3 of {for, user-function call, partial with data, contentFor+contentOf with data, block helper running its block with a new context plus data}; at every level random let statements (fresh and shadowing) and probes of the names a, b, c before, inside and after each construct, binders (loop variable, parameter, data key) drawn from names that may shadow outer ones, unique value tokens; 40 (quick) / 4000 (thorough) random placements per nesting, every third with a sibling construct. Oracle: an environment-chain reference model (construct pushes a scope, let binds innermost, lookup walks outward, exit pops) predicts every probe. Non-trivial = every program (distinct by hash).",
+		Rule: "all 399 nestings of depth 1-3 of {for, user-function call (with and without parameters), partial with data, contentFor+contentOf with data, block helper running its block with a new context plus data, contentFor declared outside and replayed by contentOf inside a for body / inside a function body}; at every level random let statements (fresh and shadowing) and probes of the names a, b, c before, inside and after each construct, binders (loop variable, parameter, data key) drawn from names that may shadow outer ones, unique value tokens; 40 (quick) / 4000 (thorough) random placements per nesting, every third with a sibling construct. Oracle: an environment-chain reference model (construct pushes a scope, let binds innermost, lookup walks outward, exit pops) predicts every probe. Non-trivial = every program (distinct by hash).",
 		Assume:  []string{"loops have one iteration (whether a let of iteration 1 is visible at the start of iteration 2 is unspecified)", "functions are called where they are defined, so static and dynamic visibility of outer names coincide", "plain assignment to outer variables is not generated"},
 		Batches: batchesQT(8, 32),
 		Run:     c09Run,
